@@ -32,6 +32,15 @@ fn classify(fw: u64, fh: u64, w: u64, h: u64, ox: u64, oy: u64) -> InitResult {
 }
 
 fn c09_one(a: &mut Acc, stage: &str, idx: u64, cfg: &DispCfg) {
+    // acceptance must not depend on the other options or on the order of the builder calls
+    let mut cfg = cfg.clone();
+    let h = idx.wrapping_mul(0x9E37_79B9_7F4A_7C15) >> 20;
+    cfg.ori = Ori((h % 8) as u8);
+    cfg.bgr = (h >> 3) & 1 == 1;
+    cfg.refresh = ((h >> 4) % 4) as u8;
+    cfg.invert = (h >> 6) & 1 == 1;
+    cfg.order = if (h >> 7) & 1 == 1 { 0 } else { ((h >> 8) % 10_080) as u16 };
+    let cfg = &cfg;
     let (fw, fh) = cfg.model.fb();
     let want = classify(fw as u64, fh as u64, cfg.w as u64, cfg.h as u64, cfg.ox as u64, cfg.oy as u64);
     let class = match want {
@@ -43,7 +52,7 @@ fn c09_one(a: &mut Acc, stage: &str, idx: u64, cfg: &DispCfg) {
     if cfg.ox as u64 + cfg.w as u64 > 65535 || cfg.oy as u64 + cfg.h as u64 > 65535 {
         a.count("offset_plus_size_exceeds_u16", 1);
     }
-    let desc = format!("{:?}/{:?}/{}x{}+{}+{}/{}", cfg.model, cfg.tr, cfg.w, cfg.h, cfg.ox, cfg.oy, cfg.rst);
+    let desc = format!("{:?}/{:?}/{}x{}+{}+{}/{}/{}/{}", cfg.model, cfg.tr, cfg.w, cfg.h, cfg.ox, cfg.oy, cfg.rst, cfg.ori.0, cfg.order);
     a.case(&desc, true);
     match Session::open(cfg) {
         Opened::Ready(_) => {
@@ -355,6 +364,7 @@ pub fn c11(args: &Args) -> Acc {
                 cfg.oy = (fh - cfg.h) / 2;
             }
             cfg.spi_buf = [64, 3, 17, 512][(k % 4) as usize].max(if m.bits() == 16 { 2 } else { 3 });
+            cfg.order = if k % 3 == 0 { 0 } else { ((idx.wrapping_mul(2_654_435_761) >> 7) % 10_080) as u16 };
             let supported = m.supports(t.kind());
             a.seen("model_kind", format!("{}/{:?}:{}", m.name(), t.kind(), if supported { "supported" } else { "refused" }));
             a.seen("transports", t.name());
@@ -513,6 +523,7 @@ pub fn c17(args: &Args) -> Acc {
         cfg.invert = invert;
         cfg.refresh = refresh;
         cfg.rst = idx % 2 == 0;
+        cfg.order = if rng.bool() { 0 } else { rng.below(10_080) as u16 };
         if rng.bool() {
             let (fw, fh) = m.fb();
             let (w, h, ox, oy) = gen::gen_window(&mut rng, fw, fh, u64::MAX);
@@ -530,12 +541,45 @@ pub fn c17(args: &Args) -> Acc {
                 if let Err((sig, detail)) = reset_monitor(&s.init_log, cfg.rst) {
                     a.violate("main", idx, format!("{}/{}", sig, if cfg.rst { "reset-pin" } else { "no-reset-pin" }), detail, cfg.to_json());
                 }
+                // a strobe with undriven data pins or an undriven D/C line puts something undefined
+                // on the bus: whatever came "first" was not the software reset
+                for f in &s.init_findings {
+                    if let Finding::Panel(crate::panel::Anomaly::Wire(w)) = f {
+                        a.violate("main", idx, format!("undefined-bus-during-init/{}", f.kind()), format!("{:?}", w), cfg.to_json());
+                    }
+                }
                 if cfg.rst && s.tl.0.borrow().rst != Some(true) {
                     a.violate("main", idx, "reset-pin-not-high-at-return", format!("level {:?}", s.tl.0.borrow().rst), cfg.to_json());
                 }
                 if idx % 997 == 1 {
                     let head: Vec<String> = s.init_log.iter().take(6).map(|e| format!("{:?}", e)).collect();
                     a.sample(cfg.to_json().with("timeline_head", head));
+                }
+                // the same on an interface that has been used before: draw something (the lines are
+                // now wherever the last call left them), release, initialise again
+                use ModelId::*;
+                let wired = [GC9107, GC9A01, ILI9341Rgb565, ILI9341Rgb666, ILI9342CRgb565, ILI9342CRgb666, ILI9486Rgb565, ILI9486Rgb666, ILI9488Rgb565, ILI9488Rgb666, RM67162, ST7735s, ST7789, ST7796, Ext16x16, Ext64x48, Ext256x256, Ext240x320c666, ExtQuirk];
+                if idx % 3 != 0 && wired.contains(&cfg.model) {
+                    let mut s = s;
+                    let _ = s.step(&Op::SetPixel { x: 0, y: 0, c: 0xFFFF });
+                    if idx % 2 == 0 {
+                        let _ = s.step(&Op::FillSolid { rect: crate::ops::Rect { x: 0, y: 0, w: 1, h: 1 }, c: 0 });
+                    }
+                    let mut cfg2 = cfg.clone();
+                    cfg2.rst = (idx / 2) % 2 == 0;
+                    cfg2.ori = Ori(rng.below(8) as u8);
+                    match s.rebuild(&cfg2) {
+                        Opened::Failed { init, .. } => a.violate("main", idx, "after-release/init-failed", format!("{:?}", init), cfg2.to_json()),
+                        Opened::Ready(s2) => {
+                            a.count("re_initialisations_checked", 1);
+                            if let Err((sig, detail)) = reset_monitor(&s2.init_log, cfg2.rst) {
+                                a.violate("main", idx, format!("after-release/{}/{}", sig, if cfg2.rst { "reset-pin" } else { "no-reset-pin" }), format!("second init on a released interface: {}", detail), cfg2.to_json().with("first", cfg.to_json()));
+                            }
+                            for f in &s2.init_findings {
+                                a.violate("main", idx, format!("after-release/init-{}", f.kind()), f.describe(), cfg2.to_json().with("first", cfg.to_json()));
+                            }
+                        }
+                    }
                 }
             }
         }
